@@ -98,12 +98,12 @@ Proof.
   rewrite Hs in Hs'. inversion Hs'; subst. auto.
 Qed.
 
-Lemma w_entry fuel s ev k : pres (wk mc) (exec_entry cf mc children fuel s ev k).
+Lemma w_entry fuel s ev k : pres (wk mc) (exec_entry cf contained mc children fuel s ev k).
 Proof.
   pose proof (wk_stable mc) as HS. unfold exec_entry. destruct (child children s) as [co|] eqn:E.
-  - assert (B : pres (wk mc) (in_child mc s tt (co_entry_pre co ev k);;
+  - assert (B : pres (wk mc) (in_child contained mc s tt (co_entry_pre co ev k);;
                               cb_at mc [s] KMEntry 0 ev match k with EkPlain => false | _ => true end;;
-                              in_child mc s tt (co_entry_post co fuel ev k))).
+                              in_child contained mc s tt (co_entry_post co fuel ev k))).
     { apply pres_bind; [apply p_in_child; auto; eapply wl; eauto; intros c W; apply (ws_pre c co W)|]. intros _.
       apply pres_bind; [apply p_cb_at; auto|]. intros _.
       apply p_in_child; auto. eapply wl; eauto. intros c W. apply (ws_post c co W). }
